@@ -454,7 +454,6 @@ func (e *explorer) runGroups(groups []group) {
 		}
 		return a.Case.N < b.Case.N
 	})
-	var newly []finding
 	for _, pf := range pending {
 		f := pf.f
 		if e.isSubsumed(f) {
@@ -466,9 +465,8 @@ func (e *explorer) runGroups(groups []group) {
 		}
 		f.Case.Src = Source(f.Case)
 		r.Violate("c02", f.class(), f.Case, f.Expected, f.Got, f.Note)
-		newly = append(newly, f)
-	}
-	for _, f := range newly {
+		// pending is sorted by token count, so a longer shape met later in
+		// this same batch (a labels-defined loop) is already subsumed
 		e.violated[f.Oracle] = append(e.violated[f.Oracle], f.Case.tokens())
 	}
 }
